@@ -113,3 +113,20 @@ class Analysis:
         for i in retained_inputs:
             out |= set(self.graph[i][1])
         return out
+
+
+def builder_imports(files: dict, input_names, enum_names):
+    """Input and enum classes imported by the operation-builder modules (enable_custom_operations) of a package:
+    what those modules need in order to load."""
+    ins, ens = [], []
+    for fn in ("custom_queries.py", "custom_mutations.py", "custom_fields.py", "custom_typing_fields.py"):
+        if fn not in files:
+            continue
+        for node in ast.parse(files[fn]).body:
+            if isinstance(node, ast.ImportFrom) and node.level == 1:
+                for a in node.names:
+                    if a.name in input_names and a.name not in ins:
+                        ins.append(a.name)
+                    elif a.name in enum_names and a.name not in ens:
+                        ens.append(a.name)
+    return ins, ens
